@@ -231,6 +231,49 @@ Proof.
   - discriminate.
 Qed.
 
+(* the operand evaluated against a parameter of exactly its static type *)
+Lemma operand_sound_ty : forall sch facts dst dot a st,
+  ty_operand sch facts dst a = Some st -> ok_val sch facts dst dot ->
+  exists v, eval_arg sch dot (PTy (s_ty st)) a = Ok v /\ ok_val sch facts st v.
+Proof.
+  intros sch facts dst dot a st Hty Hok. destruct a; simpl in *.
+  - inversion Hty; subst. destruct Hok as [Hw [Ht Hs]]. rewrite Ht, ty_eqb_refl. exists dot. repeat split; auto.
+  - destruct (chain0_sound sch facts chain dst dot st Hty Hok) as [x [Hx Hokx]].
+    rewrite Hx. simpl. destruct Hokx as [Hw [Ht Hs]]. rewrite Ht, ty_eqb_refl. exists x. repeat split; auto.
+  - inversion Hty; subst. simpl. eexists; split; [reflexivity|]. apply ok_scalar; reflexivity.
+  - inversion Hty; subst. simpl. eexists; split; [reflexivity|]. apply ok_scalar; reflexivity.
+  - discriminate.
+Qed.
+
+Lemma is_t_int_operand : forall sch facts dst dot a,
+  is_t_int (ty_operand sch facts dst a) = true -> ok_val sch facts dst dot ->
+  exists z, eval_arg sch dot (PTy t_int) a = Ok (VInt t_int z).
+Proof.
+  intros sch facts dst dot a H Hok. unfold is_t_int in H.
+  destruct (ty_operand sch facts dst a) as [sa|] eqn:Ha; [|discriminate].
+  apply ty_eqb_eq in H.
+  destruct (operand_sound_ty _ _ _ _ _ _ Ha Hok) as [v [Hv [Hw [Ht _]]]]. rewrite H in Hv, Ht.
+  destruct v; simpl in Ht; try discriminate. subst t. eauto.
+Qed.
+
+Lemma maxlag_sound : forall sch facts sa v st,
+  ty_maxlag sch (Some sa) = Some st -> ok_val sch facts sa v ->
+  exists x, coerce (PTy t_partp) v = Ok v /\ apply_fn sch FMaxlag [v] = Ok x /\ ok_val sch facts st x.
+Proof.
+  intros sch facts sa v st Hty [Hw [Ht _]]. unfold ty_maxlag in Hty.
+  destruct (field_ty sch "PartitionStatus" "CurrentLag") as [ft|] eqn:Hf; [|discriminate].
+  destruct (ty_eqb (s_ty sa) t_partp) eqn:E1; [|discriminate]. destruct (ty_eqb ft t_u64) eqn:E2; [|discriminate].
+  apply ty_eqb_eq in E1. apply ty_eqb_eq in E2. subst ft. simpl in Hty. inversion Hty; subst st. rewrite E1 in Ht.
+  assert (Hc : coerce (PTy t_partp) v = Ok v) by (unfold coerce; rewrite Ht, ty_eqb_refl; reflexivity).
+  unfold field_ty in Hf. destruct (tentry_of sch "PartitionStatus") as [[[fds| |] ms]|] eqn:He; try discriminate.
+  destruct v; simpl in Ht; try discriminate; try (subst; simpl in Hw; discriminate).
+  - exists (VInt t_u64 0). repeat split; auto. intros p Hp; discriminate.
+  - inversion Ht as [Htv]. simpl in Hw.
+    destruct (struct_value sch v "PartitionStatus" fds ms Htv Hw He) as [fs [-> Hfs]].
+    destruct (assoc_fields sch fs fds "CurrentLag" t_u64 Hfs Hf) as [x [Hax [Hwx Htx]]].
+    exists x. simpl. rewrite Hax. repeat split; auto. intros p Hp; discriminate.
+Qed.
+
 Lemma zero_of_ok : forall sch t z, zero_of sch t = Some z -> wt sch z = true /\ type_of z = t.
 Proof.
   intros sch t z H. destruct t; simpl in H; try discriminate; try (inversion H; subst; simpl; auto; fail).
@@ -370,6 +413,65 @@ Proof.
       destruct (operand_sound _ _ _ _ _ _ Ha Hok) as [va [Hva _]].
       inversion Hty; subst st. simpl. rewrite Hva. simpl.
       destruct (contains_nonfinite va); (eexists; split; [reflexivity| apply ok_scalar_j; reflexivity]).
+  - (* add *)
+    destruct args as [|a [|b [|]]]; try discriminate. destruct fed; [discriminate|]. destruct final; [contradiction|].
+    destruct (is_t_int (ty_operand sch facts dst a)) eqn:Ea; [|discriminate].
+    destruct (is_t_int (ty_operand sch facts dst b)) eqn:Eb; [|discriminate]. inversion Hty; subst st.
+    destruct (is_t_int_operand _ _ _ _ _ Ea Hok) as [za Hza]. destruct (is_t_int_operand _ _ _ _ _ Eb Hok) as [zb Hzb].
+    simpl. change (PTy (TInt "int")) with (PTy t_int). rewrite Hza. simpl. rewrite Hzb. simpl.
+    eexists; split; [reflexivity| apply ok_scalar; reflexivity].
+  - (* minus *)
+    destruct args as [|a [|b [|]]]; try discriminate. destruct fed; [discriminate|]. destruct final; [contradiction|].
+    destruct (is_t_int (ty_operand sch facts dst a)) eqn:Ea; [|discriminate].
+    destruct (is_t_int (ty_operand sch facts dst b)) eqn:Eb; [|discriminate]. inversion Hty; subst st.
+    destruct (is_t_int_operand _ _ _ _ _ Ea Hok) as [za Hza]. destruct (is_t_int_operand _ _ _ _ _ Eb Hok) as [zb Hzb].
+    simpl. change (PTy (TInt "int")) with (PTy t_int). rewrite Hza. simpl. rewrite Hzb. simpl.
+    eexists; split; [reflexivity| apply ok_scalar; reflexivity].
+  - (* multiply *)
+    destruct args as [|a [|b [|]]]; try discriminate. destruct fed; [discriminate|]. destruct final; [contradiction|].
+    destruct (is_t_int (ty_operand sch facts dst a)) eqn:Ea; [|discriminate].
+    destruct (is_t_int (ty_operand sch facts dst b)) eqn:Eb; [|discriminate]. inversion Hty; subst st.
+    destruct (is_t_int_operand _ _ _ _ _ Ea Hok) as [za Hza]. destruct (is_t_int_operand _ _ _ _ _ Eb Hok) as [zb Hzb].
+    simpl. change (PTy (TInt "int")) with (PTy t_int). rewrite Hza. simpl. rewrite Hzb. simpl.
+    eexists; split; [reflexivity| apply ok_scalar; reflexivity].
+  - (* divide by a non-zero literal *)
+    destruct args as [|a [|b [|]]]; try discriminate; try (destruct b; discriminate).
+    destruct fed; [destruct b; discriminate|]. destruct final; [contradiction|]. destruct b; try discriminate.
+    destruct (is_t_int (ty_operand sch facts dst a)) eqn:Ea; [|discriminate].
+    destruct (z =? 0)%Z eqn:Ez; [discriminate|]. inversion Hty; subst st.
+    destruct (is_t_int_operand _ _ _ _ _ Ea Hok) as [za Hza].
+    simpl. change (PTy (TInt "int")) with (PTy t_int). rewrite Hza. simpl. rewrite Ez.
+    eexists; split; [reflexivity| apply ok_scalar; reflexivity].
+  - (* maxlag *)
+    destruct args as [|a [|]]; try discriminate.
+    + destruct fed as [fs|]; [|discriminate]. destruct final as [fv|]; [|contradiction]. simpl in Hfed.
+      destruct (maxlag_sound _ _ _ _ _ Hty Hfed) as [x [Hc [Hx Hokx]]].
+      cbv [fn_specs helper_sig f_params map pspec_of]. cbn [eval_args]. unfold t_partp in Hc. rewrite Hc. cbn [bind]. eauto.
+    + destruct fed; [discriminate|]. destruct final; [contradiction|].
+      destruct (ty_operand sch facts dst a) as [sa|] eqn:Ha; [|discriminate].
+      destruct (operand_sound_ty _ _ _ _ _ _ Ha Hok) as [va [Hva Hoa]].
+      destruct (maxlag_sound _ _ _ _ _ Hty Hoa) as [x [Hc [Hx Hokx]]].
+      assert (Est : s_ty sa = t_partp).
+      { unfold ty_maxlag in Hty. destruct (field_ty sch "PartitionStatus" "CurrentLag"); [|discriminate].
+        destruct (ty_eqb (s_ty sa) t_partp) eqn:E; [apply ty_eqb_eq in E; exact E|discriminate]. }
+      rewrite Est in Hva. cbv [fn_specs helper_sig f_params map pspec_of]. cbn [eval_args]. unfold t_partp in Hva. rewrite Hva. cbn [bind].
+      eauto.
+  - (* formattimestamp *)
+    destruct args as [|a [|b [|]]]; try discriminate; try (destruct b; discriminate).
+    destruct fed; [destruct b; discriminate|]. destruct final; [contradiction|]. destruct b; try discriminate.
+    assert (Hs : ok_val sch facts (mkSty TStr None false) (VAbsStr false)) by (apply ok_scalar; reflexivity).
+    destruct a.
+    + simpl in Hty. destruct (ty_eqb (s_ty dst) t_i64) eqn:E; [|discriminate]. inversion Hty; subst st.
+      apply ty_eqb_eq in E.
+      destruct (operand_sound_ty sch facts dst dot ADot dst eq_refl Hok) as [va [Hva _]]. rewrite E in Hva.
+      unfold t_i64 in Hva. cbv [fn_specs helper_sig f_params map pspec_of]. cbn [eval_args]. rewrite Hva. simpl. eauto.
+    + destruct (ty_operand sch facts dst (AField chain)) as [sa|] eqn:Ha; [|discriminate].
+      destruct (ty_eqb (s_ty sa) t_i64) eqn:E; [|discriminate]. apply ty_eqb_eq in E. inversion Hty; subst st.
+      destruct (operand_sound_ty _ _ _ _ _ _ Ha Hok) as [va [Hva _]]. rewrite E in Hva.
+      unfold t_i64 in Hva. cbv [fn_specs helper_sig f_params map pspec_of]. cbn [eval_args]. rewrite Hva. simpl. eauto.
+    + simpl in Hty. discriminate.
+    + inversion Hty; subst st. simpl. eauto.
+    + simpl in Hty. discriminate.
 Qed.
 
 Lemma cmd_sound : forall sch facts dst dot c fed final st,
@@ -795,8 +897,6 @@ Section EvalData.
      ("CurrentLag", KInt (Eval.ps_lag p)); ("Complete", KFloat (f32_finite (Eval.ps_complete p)))].
 
   Definition part_val (p : Eval.pstatus) : value := VPtr (build_struct sch "PartitionStatus" (part_known p)).
-
-  Definition t_partp : ty := TPtr (TNamed "PartitionStatus").
 
   Definition group_known (cluster group : string) (g : Eval.gstatus) : list (string * kval) :=
     [("Cluster", KStr cluster); ("Group", KStr group);
